@@ -14,8 +14,8 @@
    an IPAddress inside iprange_to_cidrs = py_net_of_addr.  Translated callees used as generated: iprange_to_cidrs
    (Gen/pysrc_iprange_gen.v; it instantiates the model's parameter `to_cidrs`: src_to_cidrs), IPNetwork.__getitem__ for
    cidr[0] / cidr[-1] (Gen/pysrc_listlike_gen.v), IPAddress.version.
-   Hypotheses: none for the text functions.  iprange_to_globs: both addresses IPv4 or neither (the model says Unsupported for
-   mixed versions: str() of an IPv6 address is not modelled); for IPv4 the blocks that iprange_to_cidrs returns for these
+   Hypotheses: none for the text functions.  iprange_to_globs: for mixed versions model and generated code both say
+   Unsupported (str() of an IPv6 address is not modelled; stated for an in-range IPv4 operand); for IPv4 the blocks that iprange_to_cidrs returns for these
    bounds are IPv4 blocks inside the address space (net4_ok) -- the generated code builds the IPAddress objects cidr[0],
    cidr[-1] through the range-checking constructor, the model applies net_first / net_last directly; the hypothesis of
    C17_to_globs (cidrs_tile) implies it.  cidr_to_glob: the network is inside its address space (prefixlen <= width).
@@ -47,6 +47,8 @@ Theorem C17_source_tie :
      (forall nets, src_iprange_to_cidrs (py_net_of_addr (4, s)) (py_net_of_addr (4, e)) = Ok nets -> Forall net4_ok nets) ->
      src_iprange_to_globs (4, s) (4, e) = iprange_to_globs src_to_cidrs (4, s) (4, e)) /\
   (forall to_cidrs sv s ev e, sv <> 4 -> ev <> 4 ->
+     src_iprange_to_globs (sv, s) (ev, e) = iprange_to_globs to_cidrs (sv, s) (ev, e)) /\
+  (forall to_cidrs sv s ev e, (sv = 4 <-> ev <> 4) -> (sv = 4 -> 0 <= s < 2 ^ 32) ->
      src_iprange_to_globs (sv, s) (ev, e) = iprange_to_globs to_cidrs (sv, s) (ev, e)) /\
   (forall s, omap blocks_of (src_glob_to_cidrs s) = glob_to_cidrs src_to_cidrs s) /\
   (forall v p, net4_ok {| nver := 4; nval := v; nplen := p |} ->
